@@ -74,7 +74,7 @@ func refAccepts(h, c string) bool {
 	return false
 }
 
-var c16Accept = []string{"", "gzip", "deflate", "br", "zstd", "gzip, deflate, br", "identity", "xgzipx", "br;q=1.0, gzip;q=0.5", "compress, zstd"}
+var c16Accept = []string{"", "gzip", "deflate", "br", "zstd", "gzip, deflate, br", "identity", "xgzipx", "br;q=1.0, gzip;q=0.5", "compress, zstd", "GZip", "gzip;q=0, BR"}
 
 // VerifH_C16_dowrite: headers, length, coding decision and body of a poll response for
 // text and binary payloads, any compression threshold, packet options and Accept-Encoding shapes.
@@ -361,4 +361,45 @@ func scriptSafe(lit string) bool {
 		}
 	}
 	return true
+}
+
+// VerifH_C16_large_body: poll responses whose body is larger than the 32 KiB chunk the
+// standard copy helpers work with (32768, 32769, 70000 bytes as sent; plain text, binary):
+// the body sent is the whole payload in one response and Content-Length equals it.
+func VerifH_C16_large_body() {
+	p, _ := newPolling("4")
+	n := [3]int{32768, 32769, 70000}[verif.Choose(3)]
+	payload := make([]byte, n)
+	for i := range payload {
+		payload[i] = 'a' + byte(i%7)
+	}
+	isText := verif.Bool()
+	var data types.BufferInterface
+	if isText {
+		data = types.NewStringBuffer(payload)
+	} else {
+		data = types.NewBytesBuffer(payload)
+	}
+	ctx, w := newCtx("GET", "4")
+	p.OnRequest(ctx)
+	calls := 0
+	p.DoWrite(ctx, data, &packet.Options{Compress: false}, func(err error) {
+		calls++
+		verif.Assert(err == nil, "completion without error")
+	})
+	verif.Settle()
+	verif.Assert(calls == 1 && len(w.status) == 1 && w.status[0] == 200, "exactly one 200 response")
+	sent := 0
+	for _, b := range w.bodies {
+		sent += len(b)
+	}
+	verif.Assert(sent == n, "the whole body is sent")
+	verif.Assert(w.hdr.Get("Content-Length") == strconv.Itoa(sent), "Content-Length equals the bytes sent")
+	if sent == n && len(w.bodies) == 1 {
+		for _, j := range []int{0, 32767, 32768, n - 1} {
+			if j < n {
+				verif.Assert(w.bodies[0][j] == 'a'+byte(j%7), "bytes intact")
+			}
+		}
+	}
 }
